@@ -63,7 +63,7 @@ def run(prop, tier):
         for (start, free, bq, bt, bh) in fam_grammar.STARTS:
             if fam_grammar.has_start(start) and not start.startswith("FE_") and start not in ("E12", "Type"):
                 jobs.append(lambda start=start, free=free, b=(bq if tier == "quick" else bh): fam_grammar.generate(chk, start, b, start, free, wd))
-        for (tapes, n) in common.parallel(jobs, 4):
+        for (tapes, n) in common.parallel(jobs, 12):
             if n == 0:
                 continue
             corpus = tapes + ".corpus"
